@@ -411,8 +411,21 @@ def nb_inv(prog, bodies):
             if t[1] == "adt" and t[2] == FF:
                 n += 1
                 v = t[4][0]
+                # conditions under which the literal is built or handed out: the branch facts of its block, and the
+                # condition of `cond.then_some(literal)` / `cond.then(|| literal)` (the literal is built eagerly but only
+                # leaves the function when the condition holds)
+                guards = [(strip(c), val != "0") for c, val, _, _ in te.facts_at(bb) if val in ("0", "1", ("not", ("0",)))]
+                for cs in te.calls:
+                    if cs.callee.name in ("then_some", "then") and len(cs.args) == 2 and \
+                            any(x is t or x == t for x in mir.subterms(cs.args[1])):
+                        guards.append((strip(cs.args[0]), True))
                 for pname, P in sorted(primes.items()):
                     it = Interp(prog, P, fn)
+                    for c, truth in guards:
+                        try:
+                            it.refine(c, truth, {}, frozenset(), fn)
+                        except Exception:
+                            pass
                     lo, hi = it.iv(v, {}, frozenset(), fn)
                     if hi > P - 1:
                         bad.append("%s:%s builds FiniteField{v: %s} whose value can reach %s for P = %s: not a residue "
